@@ -1,11 +1,254 @@
 import Tbx.Spec.SlotQueue
+import Tbx.Proofs.Sorting
+import Tbx.Proofs.SortedInsert
+import Tbx.Proofs.NextFit
+import Tbx.Proofs.KWayMerge
+import Tbx.Proofs.LoserTreeInit
+import Tbx.Proofs.BagTree
+import Tbx.Proofs.TopK
+import Tbx.Proofs.FenwickUpdate
+import Tbx.Proofs.FenwickSelect
+import Tbx.Proofs.FenwickLsb
+import Tbx.Model.LegacyC18
 /-
 C18 — merging, selection and prefix-sum structures match their naive definitions.
+
+Property theorems only (helper lemmas live in Tbx/Proofs).  Registered in Tbx/Audit/C18.lean.
+Models: Tbx/Model/{LoserTree,KWayMerge,TopK,Fenwick,SortedInsert,NextFit}.lean;
+naive definitions: Tbx/Spec/{Sorting,MergeTree,SlotQueue,PrefixSum,NextFit}.lean.
 -/
 namespace Tbx.Props.C18
+open Tbx Tbx.Sorting
 
-/-- the executable minimum test used by the loser-tree judge is exactly `IsMinSlot` -/
+/-! ### judge soundness: the executable tests the driver applies to the real output mean the Spec -/
+
+/-- "the output equals the naive sort of the input" ⇔ sorted and the same multiset (merge, top-k, list judge) -/
+theorem judge_sorted_union_sound (out xs : List Int) : out = isort xs ↔ Sorted out ∧ out.Perm xs :=
+  eq_isort_iff out xs
+
+theorem judge_sortedB_sound (l : List Int) : sortedB l = true ↔ Sorted l := sortedB_iff l
+
+/-- the minimum test of the loser-tree judge is exactly `IsMinSlot` -/
 theorem judge_isMinSlot_sound (q : SlotQueue.Q) (s : Nat) (x : Int) :
     SlotQueue.isMinSlotB q s x = true ↔ SlotQueue.IsMinSlot q s x := SlotQueue.isMinSlotB_iff q s x
+
+/-- the next-fit checker decides exactly the laws -/
+theorem judge_nextFit_sound (items : List Nat) (cap : Nat) (res : Option (Nat × List Nat)) :
+    NextFitSpec.check items cap res = true ↔ NextFitSpec.Laws items cap res := NextFit.check_iff items cap res
+
+/-- the select checker decides exactly `IsSelect` -/
+theorem judge_select_sound (v : List Int) (x : Int) (r : Option Nat) :
+    PrefixSum.isSelectB v x r = true ↔ PrefixSum.IsSelect v x r := PrefixSum.isSelectB_iff v x r
+
+/-! ### next-fit bin packing (P0) -/
+
+/-- for EVERY input the model's result satisfies the next-fit laws: `Err` iff the capacity is 0 or an
+    item is larger than a bin; assignments start at 0 and rise by steps ≤ 1; bin count = last bin + 1;
+    no bin is loaded beyond the capacity; a bin is opened at an item only if the item does not fit the
+    rest of the previous bin -/
+theorem next_fit_laws (items : List Nat) (cap : Nat) :
+    NextFitSpec.Laws items cap (NextFit.nextFit items cap) := NextFit.nextFit_laws items cap
+
+example : NextFit.nextFit [2, 5, 4, 7, 1, 3, 8] 11 = some (3, [0, 0, 0, 1, 1, 1, 2]) := by decide
+example : NextFit.nextFit [10, 10] 10 = some (2, [0, 1]) ∧ NextFit.nextFit [3] 0 = none ∧
+    NextFit.nextFit [1, 11] 10 = none := by decide
+
+/-! ### sorted insertion into the singly linked list (P0, after D17) -/
+
+/-- `insert_sorted` keeps ascending order and the result holds exactly the old items plus the element -/
+theorem insert_sorted_ok (l : SList.SL) (e : Int) (h : Sorted l) :
+    Sorted (SList.insertSorted l e) ∧ (SList.insertSorted l e).Perm (e :: l) :=
+  ⟨SList.insertSorted_sorted l e h, SList.insertSorted_perm l e⟩
+
+/-- `is_sorted` decides ascending order -/
+theorem is_sorted_iff (l : SList.SL) : SList.isSorted l = true ↔ Sorted l := SList.isSorted_iff l
+
+/-- non-vacuity, and the D17 witnesses: insertion into the empty list and in front of the head -/
+example : Sorted [1, 5, 8] ∧ SList.insertSorted [1, 5, 8] 3 = [1, 3, 5, 8] ∧
+    SList.insertSorted [] 5 = [5] ∧ SList.insertSorted [5] 1 = [1, 5] := by
+  refine ⟨by simp [Sorted], by decide, by decide, by decide⟩
+
+/-- the code before the D17 fix violates the statement on the recorded witnesses -/
+example : LegacyC18.insertSorted [] 5 = [] ∧ LegacyC18.insertSorted [5] 1 = [5, 1] ∧
+    ¬ Sorted (LegacyC18.insertSorted [5] 1) := by
+  refine ⟨by decide, by decide, ?_⟩
+  rw [← sortedB_iff]; decide
+
+/-! ### k-way merge over any MergeTree (P1) -/
+
+/-- for sorted runs, the iterator over ANY tree satisfying `TreeSpec` (started empty, with a slot per run)
+    finishes without panic within the model's fuel and yields the sorted multiset union of the runs -/
+theorem merge_sorted {σ : Type} {T : KWay.MTree σ} {cap : Nat} (S : KWay.TreeSpec T cap)
+    (runs : List (List Int)) (s0 : σ) (h0 : S.ok s0) (hempty : ∀ j, S.slot s0 j = none)
+    (hk : runs.length ≤ cap) (hs : ∀ r ∈ runs, Sorted r) :
+    ∃ out, KWay.merge T runs s0 = .done out ∧ Sorted out ∧ out.Perm runs.flatten :=
+  KWay.merge_spec S runs s0 h0 hempty hk hs
+
+/-- the loser tree IS such a tree (for every capacity): so merging through `LoserTree::with_capacity(cap)`
+    with at most `cap` sorted runs yields exactly the naive sorted union -/
+theorem merge_sorted_loser (cap : Nat) (runs : List (List Int)) (hk : runs.length ≤ cap)
+    (hs : ∀ r ∈ runs, Sorted r) :
+    KWay.merge KWay.loserTree runs (LoserTree.withCapacity cap) = .done (isort runs.flatten) := by
+  obtain ⟨hI, hc, hn⟩ := LoserTree.withCapacity_inv cap
+  obtain ⟨out, h1, h2, h3⟩ := KWay.merge_spec (KWay.loserSpec cap) runs (LoserTree.withCapacity cap)
+    ⟨hI, hc⟩ (fun j => by
+      show (gt (LoserTree.withCapacity cap).leaves j).map (·.item) = none
+      rw [hn j]; rfl) hk hs
+  rw [h1, (eq_isort_iff out _).mpr ⟨h2, h3⟩]
+
+/-- the stand-in for `BinaryHeap` used by the driver's model (a bag whose pop removes a minimal entry)
+    also satisfies `TreeSpec`: a second, structurally different instance of the specification -/
+theorem merge_sorted_bag (runs : List (List Int)) (hs : ∀ r ∈ runs, Sorted r) :
+    KWay.merge KWay.bag runs [] = .done (isort runs.flatten) := by
+  obtain ⟨out, h1, h2, h3⟩ := KWay.merge_spec (KWay.bagSpec runs.length) runs []
+    (by show KWay.bagOk []; exact List.Pairwise.nil) (fun _ => rfl) (Nat.le_refl _) hs
+  rw [h1, (eq_isort_iff out _).mpr ⟨h2, h3⟩]
+
+/-- non-vacuity: a concrete instance (3 runs incl. an empty one, duplicates, capacity 3 → 4 leaves) -/
+example : KWay.merge KWay.loserTree [[1, 4, 4], [], [2, 4]] (LoserTree.withCapacity 3) = .done [1, 2, 4, 4, 4] := by
+  decide
+
+/-! ### the loser tree as a slot-indexed queue (P1, after D16) -/
+
+/-- every capacity (0, 1, powers of two and others): the fresh tree satisfies the invariant
+    (`Inv.good`: every internal node holds a leaf of its own subtree that wins it), is empty and has at
+    least `capacity` slots -/
+theorem loser_tree_init (c : Nat) :
+    LoserTree.Inv (LoserTree.withCapacity c) ∧ c ≤ (LoserTree.withCapacity c).leaves.size ∧
+    ∀ j, gt (LoserTree.withCapacity c).leaves j = none := LoserTree.withCapacity_inv c
+
+/-- push into a free slot keeps the invariant, fills exactly that slot and counts it -/
+theorem loser_tree_push (t : LoserTree.Tree) (e : LoserTree.Entry) (hI : LoserTree.Inv t)
+    (hi : e.index < t.leaves.size) (hfree : gt t.leaves e.index = none) :
+    ∃ t', LoserTree.push t e = some t' ∧ LoserTree.Inv t' ∧
+      t'.leaves = st t.leaves e.index (some e) ∧ LoserTree.len t' = LoserTree.len t + 1 :=
+  LoserTree.push_spec t e hI hi hfree
+
+/-- pop never goes out of bounds; it returns `None` iff no entry is live, and otherwise a live entry
+    whose item is minimal among all live entries, freeing exactly its slot; the invariant is kept -/
+theorem loser_tree_pop (t : LoserTree.Tree) (hI : LoserTree.Inv t) :
+    ∃ r t', LoserTree.pop t = some (r, t') ∧ LoserTree.Inv t' ∧
+      match r with
+      | none => (∀ j, gt t.leaves j = none) ∧ t' = t
+      | some e => gt t.leaves e.index = some e ∧ (∀ j e', gt t.leaves j = some e' → e.item ≤ e'.item) ∧
+                  t'.leaves = st t.leaves e.index none ∧ t'.size + 1 = t.size :=
+  LoserTree.pop_spec t hI
+
+/-- clear empties every slot, sets the length to 0 and keeps the invariant -/
+theorem loser_tree_clear (t : LoserTree.Tree) (hI : LoserTree.Inv t) :
+    LoserTree.Inv (LoserTree.clear t) ∧ (∀ j, gt (LoserTree.clear t).leaves j = none) ∧
+    LoserTree.len (LoserTree.clear t) = 0 ∧ (LoserTree.clear t).leaves.size = t.leaves.size :=
+  LoserTree.clear_spec t hI
+
+/-- the length is the number of live entries -/
+theorem loser_tree_len (t : LoserTree.Tree) (hI : LoserTree.Inv t) :
+    LoserTree.len t = LoserTree.live t.leaves ∧ (LoserTree.isEmpty t = true ↔ LoserTree.live t.leaves = 0) := by
+  refine ⟨hI.size, ?_⟩
+  simp [LoserTree.isEmpty, hI.size]
+
+/-- the D16 witness on the fixed model: capacity 8, slot 0 = 1, slot 4 = 5 pops 1, then 5, then nothing;
+    capacity 1 works -/
+example :
+    (do let t ← LoserTree.push (LoserTree.withCapacity 8) ⟨1, 0⟩
+        let t ← LoserTree.push t ⟨5, 4⟩
+        let (a, t) ← LoserTree.pop t
+        let (b, t) ← LoserTree.pop t
+        let (c, _) ← LoserTree.pop t
+        pure (a, b, c)) = some (some ⟨1, 0⟩, some ⟨5, 4⟩, none) := by decide
+example :
+    (do let t ← LoserTree.push (LoserTree.withCapacity 1) ⟨7, 0⟩
+        let (a, t) ← LoserTree.pop t
+        let (b, _) ← LoserTree.pop t
+        pure (a, b)) = some (some ⟨7, 0⟩, none) := by decide
+
+/-- the initialisation before the D16 fix (all internal nodes = leaf 0) hides slot 4 behind slot 0:
+    the second pop returns `None` although an entry is live, contradicting `loser_tree_pop` -/
+example :
+    (do let t ← LoserTree.push (LegacyC18.loserWithCapacity 8) ⟨1, 0⟩
+        let t ← LoserTree.push t ⟨5, 4⟩
+        let (a, t) ← LoserTree.pop t
+        let (b, t) ← LoserTree.pop t
+        pure (a, b, LoserTree.len t)) = some (some ⟨1, 0⟩, none, 1) := by decide
+
+/-! ### top-k (P1) -/
+
+/-- for every `select_nth_unstable` / `sort_unstable` satisfying the std contracts, every input and
+    every k (including 0 and k > len): top_k = the k smallest items in ascending order -/
+theorem topk_eq (S : TopK.Std) (hsel : SelectContract S.selectNth) (hsort : SortContract S.sortUnstable)
+    (xs : List Int) (k : Nat) : TopK.topK S xs k = (isort xs).take k := TopK.topK_eq S hsel hsort xs k
+
+/-- non-vacuity: insertion sort satisfies the sort contract, and a selection that sorts satisfies the
+    selection contract -/
+theorem contracts_inhabited : SortContract isort ∧ SelectContract (fun l _ => isort l) := by
+  refine ⟨isort_sortContract, ?_⟩
+  intro l i _
+  refine ⟨isort_perm l, ?_⟩
+  intro m hm
+  have hs : Sorted (isort l) := isort_sorted l
+  constructor
+  · intro j x hj hx
+    exact List.pairwise_iff_getElem.mp hs j i (by
+      have := (List.getElem?_eq_some_iff.mp hx).1; exact this) (by
+      have := (List.getElem?_eq_some_iff.mp hm).1; exact this) hj
+      |> (fun h => by
+        rw [(List.getElem?_eq_some_iff.mp hx).2, (List.getElem?_eq_some_iff.mp hm).2] at h; exact h)
+  · intro j x hj hx
+    exact List.pairwise_iff_getElem.mp hs i j (by
+      have := (List.getElem?_eq_some_iff.mp hm).1; exact this) (by
+      have := (List.getElem?_eq_some_iff.mp hx).1; exact this) hj
+      |> (fun h => by
+        rw [(List.getElem?_eq_some_iff.mp hx).2, (List.getElem?_eq_some_iff.mp hm).2] at h; exact h)
+
+example : TopK.topK ⟨fun l _ => isort l, isort⟩ [8, 12, 5, 1, 20, 7, 2, 6, 3, 4, 9, 21, 26, 27, 8] 3 = [1, 2, 3] := by
+  decide
+
+/-! ### Fenwick tree (P1; `range` P2) -/
+
+/-- `from_values` establishes  tree[p] = Σ values (p − lsb p, p]  -/
+theorem fw_inv_from_values (v : List Int) : Fenwick.FwInv (Fenwick.fromValues v).tree v :=
+  Fenwick.fromValues_spec v
+
+/-- `with_size(n)` is the tree of n zeros -/
+theorem fw_inv_with_size (n : Nat) : Fenwick.FwInv (Fenwick.withSize n).tree (List.replicate n 0) :=
+  Fenwick.withSize_spec n
+
+/-- `update` answers `Err` iff the index is out of range and otherwise preserves the invariant, for
+    the plain array with the value added at the index -/
+theorem fw_inv_update (t : Array Int) (v : List Int) (hI : Fenwick.FwInv t v) (index : Nat) (x : Int) :
+    (index ≥ v.length → Fenwick.update ⟨t⟩ index x = none) ∧
+    (index < v.length → ∃ t', Fenwick.update ⟨t⟩ index x = some ⟨t'⟩ ∧
+        Fenwick.FwInv t' (PrefixSum.update v index x)) := Fenwick.update_spec t v hI index x
+
+/-- `rank` = prefix sum of the plain array (`None` iff out of range) -/
+theorem fw_rank (t : Array Int) (v : List Int) (hI : Fenwick.FwInv t v) (index : Nat) :
+    Fenwick.rank ⟨t⟩ index = PrefixSum.rank v index := Fenwick.rank_spec t v hI index
+
+/-- `slow_range(i, j)` = v[i+1] + … + v[j] -/
+theorem fw_slow_range (t : Array Int) (v : List Int) (hI : Fenwick.FwInv t v) (i j : Nat)
+    (hij : i ≤ j) (hj : j < v.length) :
+    Fenwick.slowRange ⟨t⟩ i j = some (PrefixSum.range v i j) := Fenwick.slowRange_spec t v hI i j hij hj
+
+/-- `range(i, j)` (the two-pointer walk) = v[i+1] + … + v[j] -/
+theorem fw_range (t : Array Int) (v : List Int) (hI : Fenwick.FwInv t v) (i j : Nat)
+    (hij : i < j) (hj : j < v.length) :
+    Fenwick.range ⟨t⟩ i j = some (PrefixSum.range v i j) := Fenwick.range_spec t v hI i j hij hj
+
+/-- `select(x)` on an array of non-negative entries returns the largest index whose prefix sum is ≤ x,
+    `None` if there is none (P2) -/
+theorem fw_select (t : Array Int) (v : List Int) (hI : Fenwick.FwInv t v) (hv : ∀ y ∈ v, 0 ≤ y) (x : Int) :
+    PrefixSum.IsSelect v x (Fenwick.select ⟨t⟩ x) := Fenwick.select_spec t v hI hv x
+
+/-- the bit trick `n & n.wrapping_neg()` of the Rust (64-bit usize) is the `lsb` of the model -/
+theorem fw_lsb_bits (n : Nat) (h : n < 2 ^ 64) : Fenwick.lsbBits n = Fenwick.lsb n := Fenwick.lsbBits_eq n h
+
+example : PrefixSum.IsSelect [19, 3, 27, 28] 50 (Fenwick.select (Fenwick.fromValues [19, 3, 27, 28]) 50) :=
+  fw_select _ _ (fw_inv_from_values _) (by decide) 50
+example : Fenwick.lsbBits 12 = 4 ∧ Fenwick.lsbBits 7 = 1 ∧ Fenwick.lsbBits 0 = 0 := by decide
+
+/-- non-vacuity: the invariant is satisfiable (by `from_values`), and then the queries are the plain sums -/
+example : Fenwick.rank (Fenwick.fromValues [19, 3, 27, 28, 263]) 3 = some 77 := by
+  rw [fw_rank _ _ (fw_inv_from_values _)]; decide
+example : Fenwick.range (Fenwick.fromValues [19, 3, 27, 28, 263]) 1 4 = some (27 + 28 + 263) := by
+  rw [fw_range _ _ (fw_inv_from_values _) 1 4 (by decide) (by decide)]; decide
 
 end Tbx.Props.C18
